@@ -87,12 +87,10 @@ def exhaustive(tier):
 
 # ---- real builder
 
-def run_builder(prog):
-    """returns (statements, fresh names, failure)"""
+def drive_builder(cb, prog):
+    """make the builder calls of `prog` on the REAL CodeBuilder `cb`; returns (fresh names, failure)"""
     from pymbolic import var
     from pymbolic.primitives import Call, CallWithKwargs, Variable
-    from dagrt.language import CodeBuilder
-    cb = CodeBuilder("p")
     cms = []
     fresh = []
     failed = None
@@ -139,7 +137,35 @@ def run_builder(prog):
         failed = "AssertionError"
     except IndexError:
         failed = "IndexError"
+    return fresh, failed
+
+
+def run_builder(prog):
+    """returns (statements, fresh names, failure)"""
+    from dagrt.language import CodeBuilder
+    cb = CodeBuilder("p")
+    fresh, failed = drive_builder(cb, prog)
     return cb.statements, fresh, failed
+
+
+def model_ops(prog, stmts):
+    """the ops the model replays: statement kinds as the real builder created them"""
+    kinds = [sc.stmt_js(st)["kind"] for st in stmts]
+    ops = []
+    k = 0
+    for op in prog:
+        if k > len(kinds):
+            break
+        if op[0] == "stmt":
+            if k < len(kinds):
+                ops.append(["stmt", kinds[k]])
+            k += 1
+        elif op[0] == "if":
+            ops.append(op)
+            k += 1          # the flag assignment
+        else:
+            ops.append(op)
+    return ops
 
 
 def idx(sid):
@@ -159,24 +185,8 @@ def impl(case):
 
 
 def model_input(case):
-    """the ops the model replays: statement kinds as the real builder created them"""
     stmts, fresh, failed = run_builder(case["prog"])
-    kinds = [sc.stmt_js(st)["kind"] for st in stmts]
-    ops = []
-    k = 0
-    for op in case["prog"]:
-        if k > len(kinds):
-            break
-        if op[0] == "stmt":
-            if k < len(kinds):
-                ops.append(["stmt", kinds[k]])
-            k += 1
-        elif op[0] == "if":
-            ops.append(op)
-            k += 1          # the flag assignment
-        else:
-            ops.append(op)
-    return {"op": "C02.build", "ops": ops}
+    return {"op": "C02.build", "ops": model_ops(case["prog"], stmts)}
 
 
 # ---- oracle: all schedules of the REAL graph, executed by the REAL interpreter methods
